@@ -546,6 +546,26 @@ for kd in [{"k": 7}, {}, {"k": 1, "zz": 2}]:
     return [({'id': i, 'src': s.lstrip('\n')}, feat) for i, feat, s in out]
 
 
+def many_argument_programs():
+    """calls and definitions with about 255 arguments.  Python 3.4 allows at most 255 arguments in a call and 255 parameters in a definition
+    (SyntaxError 'more than 255 arguments' beyond; CPython >= 3.7 has no limit).  Up to 255 every argument must arrive; beyond, the program must be
+    refused at compile time - the one thing that must not happen is a call that runs and binds something else."""
+    out = []
+    pre = 'def f(*a, **k):\n    return (len(a), sum(a), len(k), sum(k[n] for n in k))\ndef g(*a, **k):\n    return "g-was-called"\n'
+    for n in (200, 254, 255, 256, 257, 300, 511, 512, 513):
+        out.append(('pos', n, pre + 'print(f(' + ', '.join(str(i) for i in range(n)) + '))\n'))
+        out.append(('kw', n, pre + 'print(f(' + ', '.join('k%d=%d' % (i, i) for i in range(n)) + '))\n'))
+        out.append(('pos+kw', n, pre + 'print(f(' + ', '.join(str(i) for i in range(n - 3)) + ', x=1, y=2, z=3))\n'))
+        out.append(('pos-then-callable', n, pre + 'def c(*a, **k):\n    return (len(a), len(k), "c-was-called")\nprint(c(' + ', '.join(str(i) for i in range(n - 3)) + ', g, "k", 99))\n'))
+        out.append(('pos+star', n, pre + 'print(f(' + ', '.join(str(i) for i in range(n)) + ', *[7, 8]))\n'))
+        out.append(('def-params', n, 'def h(' + ', '.join('a%d' % i for i in range(n)) + '):\n    return a0 + a%d\nprint(h(*range(%d)))\n' % (n - 1, n)))
+        out.append(('def-defaults', n, 'def h(' + ', '.join('a%d=%d' % (i, i) for i in range(n)) + '):\n    return a0 + a%d\nprint(h(), h(5))\n' % (n - 1)))
+        out.append(('def-kwonly', n, 'def h(*, ' + ', '.join('a%d=%d' % (i, i) for i in range(n)) + '):\n    return a0 + a%d\nprint(h(), h(a0=5))\n' % (n - 1)))
+        out.append(('def-closure-over-late-param', n, 'def h(' + ', '.join('a%d' % i for i in range(n)) + '):\n    return lambda: a%d\nprint(h(*range(%d))())\n' % (n - 1, n)))
+        out.append(('lambda-params', n, 'h = lambda ' + ', '.join('a%d=1' % i for i in range(n)) + ': a0 + a%d\nprint(h())\n' % (n - 1)))
+    return [{'id': 'many-%s-%d' % (k, n), 'kind': k, 'n': n, 'src': src} for k, n, src in out]
+
+
 # ------------------------------------------------------------------------------------------------
 # embedding boundary
 
@@ -862,6 +882,31 @@ def run(tier, rep):
                 rep.violation(base + '|%s' % ('escaped:%s' % g.get('exc') if i >= len(gl) else 'wrong-value'),
                               {'case': c, 'line': i + 1, 'expected': line, 'got': gl[i] if i < len(gl) else None, 'exc': g.get('exc'), 'excmsg': g.get('excmsg')})
                 break
+
+    # ---- calls and definitions around the 255-argument limit of the 3.4 byte code --------------------------
+    mp = many_argument_programs()
+    mg, _ = run_vrun('exec', [{'id': c['id'], 'src': c['src']} for c in mp], timeout_case=60)
+    mo = oracle_exec([{'id': c['id'], 'src': c['src']} for c in mp])
+    extra['many_argument_programs'] = 0
+    for c in mp:
+        g, o = mg.get(c['id']), mo.get(c['id']) or {}
+        if g is None or g.get('timeout') or o.get('oracle_failed') or o.get('exc') or o.get('cerr'):
+            rep.inconc('many-argument program %s: no result' % c['id'])
+            continue
+        rep.evaluations += 1
+        extra['many_argument_programs'] += 1
+        nontriv.add(('many', c['kind'], c['n']))
+        w = {'case': {'id': c['id'], 'src': c['src'][:3000]}, 'arguments': c['n'], 'expected_when_accepted': o.get('out'), 'got': {k: short(v, 600) for k, v in g.items() if k in ('out', 'exc', 'excmsg', 'cerr', 'panic', 'stack')}}
+        base = 'C04|py|many-arguments|%s|%s' % (c['kind'], 'le255' if c['n'] <= 255 else 'gt255')
+        if g.get('panic') or g.get('crash'):
+            rep.violation(base + '|panic', w)
+        elif g.get('cerr'):
+            if c['n'] <= 255 or 'SyntaxError' not in str(g.get('cerr')):
+                rep.violation(base + '|refused:%s' % str(g.get('cerr'))[:40], w)
+        elif g.get('exc') or g.get('out') != o.get('out'):
+            # accepted, ran, and did something else than binding every argument
+            rep.violation(base + '|%s' % ('escaped:%s' % g.get('exc') if g.get('exc') else 'wrong-binding'), w)
+        # accepted and bound correctly beyond 255: more than 3.4 promises, but nothing is dropped or misdelivered
 
     # ---- (ii) embedding boundary ------------------------------------------------------------------
     gcases, gexp = build_go_programs(tier, r)
